@@ -3,7 +3,7 @@
 # For the unmutated source and for hand-made single-token mutations of a COPY of /repo/src placed
 # under $MUT, run the translator into a scratch Gen dir and compile Proofs/TermTie.v against the
 # scratch TermFns.v.  Expected: the baseline and the semantically equivalent mutant compile, every
-# semantic mutant breaks a proof obligation, an untranslatable edit gives TRANSLATE-ERROR (exit 3: the unit fails alone; 2: fatal).
+# semantic mutant breaks a proof obligation, an untranslatable edit gives TRANSLATE-ERROR (exit 2).
 # usage: tools/tie_selftest.sh        (needs the main tree built: coq/Proofs/TermEasy.vo)
 ROOT=$(cd "$(dirname "$0")/.." && pwd)
 COQ=$ROOT/coq
@@ -35,28 +35,53 @@ PY
   if [ $code -ne 0 ]; then
     got=terr; sed "s/^/[$name]   /" "$d/translate.log"
   else
-    # compile the scratch TermFns.v under its own logical name and TermTie.v against it
+    # compile the scratch TermFns.v and the tie files (split into parallel leaves) under the logical name AvtMut
     cp "$d/gen/TermFns.v" "$d/coq/TermFns.v"
-    sed 's/^From Avt Require Import Oracles.Step Proofs.Inv Proofs.TermEasy Gen.TermFns\.$/From Avt Require Import Oracles.Step Proofs.Inv Proofs.TermEasy. From AvtMut Require Import TermFns./' \
-      "$COQ/Proofs/TermTie.v" > "$d/coq/TermTie.v"
-    grep -q "From AvtMut Require Import TermFns" "$d/coq/TermTie.v" || { echo "[$name] cannot redirect the import"; fail=1; return; }
-    sed 's/^From Avt Require Import Oracles.Step Proofs.Inv Proofs.TermEasy Gen.TermFns Proofs.TermTie Proofs.InvStep\.$/From Avt Require Import Oracles.Step Proofs.Inv Proofs.TermEasy Proofs.InvStep. From AvtMut Require Import TermFns TermTie./' \
-      "$COQ/Proofs/TermTieW.v" > "$d/coq/TermTieW.v"
-    grep -q "From AvtMut Require Import TermFns TermTie" "$d/coq/TermTieW.v" || { echo "[$name] cannot redirect the import (W)"; fail=1; return; }
-    sed 's/^From Avt Require Import Oracles.Step Proofs.Inv Proofs.TermEasy Gen.TermFns Proofs.TermTie Proofs.InvStep$/From Avt Require Import Oracles.Step Proofs.Inv Proofs.TermEasy Proofs.InvStep. From AvtMut Require Import TermFns TermTie TermTieW. From Avt Require Import Proofs.Inv/; s/^  Proofs.TermTieW\.$/./' \
-      "$COQ/Proofs/TermTieX.v" > "$d/coq/TermTieX.v"
-    : > "$d/coq/tiew.log"
-    ( cd "$d/coq" && timeout 300 coqc -w -notation-overridden,-ambiguous-paths -Q "$COQ" Avt -Q . AvtMut TermFns.v > fns.log 2>&1 \
-      && timeout 900 coqc -w -notation-overridden,-ambiguous-paths -Q "$COQ" Avt -Q . AvtMut TermTie.v > tie.log 2>&1 \
-      && { [ -z "$withw" ] || { timeout 1500 coqc -w -notation-overridden,-ambiguous-paths -Q "$COQ" Avt -Q . AvtMut TermTieW.v > tiew.log 2>&1 \
-                                 && timeout 900 coqc -w -notation-overridden,-ambiguous-paths -Q "$COQ" Avt -Q . AvtMut TermTieX.v >> tiew.log 2>&1; }; } )
-    if [ $? -eq 0 ]; then
-      got=ok; echo "[$name]   TermTie.v${withw:+, TermTieW.v and TermTieX.v} compile ($(cat "$d/coq/tie.log" "$d/coq/tiew.log" | grep -c 'Closed under the global context') theorems closed under the global context)"
+    python3 - "$COQ/Proofs" "$d/coq" <<'PY' || { echo "[$name] cannot redirect the imports"; fail=1; return; }
+import glob, os, re, sys
+src, dst = sys.argv[1:3]
+files = [f for pat in ("TermTie.v", "TermTie_*.v", "TermTieW.v", "TermTieW_*.v", "TermTieX.v", "TermTieX_*.v")
+         for f in glob.glob(os.path.join(src, pat))]
+moved = {"Gen.TermFns": "TermFns"}
+for f in files:
+    b = os.path.basename(f)[:-2]
+    moved["Proofs." + b] = b
+for f in files:
+    t = open(f).read()
+    def fix(m):
+        kind, toks = m.group(1), m.group(2).split()
+        keep = [x for x in toks if x not in moved]
+        mv = [moved[x] for x in toks if x in moved]
+        out = ("From Avt Require %s %s." % (kind, " ".join(keep))) if keep else ""
+        if mv:
+            out += " From AvtMut Require %s %s." % (kind, " ".join(mv))
+        return out
+    t2 = re.sub(r"From Avt Require (Import|Export)((?:\s+[A-Za-z_][A-Za-z0-9_.]*[A-Za-z0-9_])+)\.(?=\s)", fix, t)
+    if "From AvtMut" not in t2:
+        sys.exit("no import redirected in " + f)
+    open(os.path.join(dst, os.path.basename(f)), "w").write(t2)
+PY
+    stage() {  # compile the given modules in parallel; fail if one fails
+      ( cd "$d/coq" && printf '%s\n' "$@" | xargs -P 8 -I{} sh -c \
+          'timeout 1500 coqc -w -notation-overridden,-ambiguous-paths -Q "$0" Avt -Q . AvtMut {}.v > {}.log 2>&1' "$COQ" )
+    }
+    : > "$d/coq/all.log"
+    ( stage TermFns && stage TermTie_Core && stage TermTie_Scalar TermTie_Events TermTieW_Core && stage TermTie \
+      && { [ -z "$withw" ] || { stage TermTieW_Edit TermTieW_Tabs TermTieW_Print TermTieW_Switch TermTieW_Reflow \
+                                      TermTieW_ResizeGen TermTieX_A TermTieX_B TermTieX_C \
+                                && stage TermTieW_Modes TermTieW_Resize && stage TermTieW && stage TermTieX; }; } )
+    local rc=$?
+    cat "$d"/coq/*.log > "$d/coq/all.log" 2>/dev/null
+    if [ $rc -eq 0 ]; then
+      got=ok; echo "[$name]   TermTie*.v${withw:+, TermTieW*.v and TermTieX*.v} compile ($(grep -c 'Closed under the global context' "$d/coq/all.log") theorems closed under the global context)"
     else
       got=broken
-      cat "$d/coq/fns.log" "$d/coq/tie.log" "$d/coq/tiew.log" 2>/dev/null | grep -A12 '^File' | head -16 | cut -c1-200 | sed "s/^/[$name]   /"
-      for tf in TermTie TermTieW TermTieX; do
-        ln=$(cat "$d/coq/tie.log" "$d/coq/tiew.log" | grep -o "$tf.v\", line [0-9]*" | head -1 | grep -o '[0-9]*$')
+      for lg in "$d"/coq/*.log; do
+        [ "$lg" = "$d/coq/all.log" ] && continue
+        grep -q '^Error\|^File' "$lg" || continue
+        tf=$(basename "$lg" .log)
+        grep -A12 '^File' "$lg" | head -8 | cut -c1-200 | sed "s/^/[$name]   /"
+        ln=$(grep -o "$tf.v\", line [0-9]*" "$lg" | head -1 | grep -o '[0-9]*$')
         [ -n "$ln" ] && echo "[$name]   failing obligation ($tf.v): $(head -n "$ln" "$d/coq/$tf.v" | grep -E '^(Lemma|Theorem) ' | tail -1 | cut -c1-100)"
       done
     fi
